@@ -293,14 +293,13 @@ func c11Case(i int, raw []byte) Result {
 		if err != nil {
 			return mk("error", "Text() failed: "+err.Error(), nil)
 		}
-		e := tabula.Open(path).Pages(p + 1)
-		switch c.Opt {
-		case "headers":
-			e = e.ExcludeHeaders()
-		case "footers":
-			e = e.ExcludeFooters()
-		default:
-			e = e.ExcludeHeadersAndFooters()
+		// the option is chained before the page selection for half of the pages and after it for the others: what an
+		// extractor was asked to exclude is carried through every later configuration call
+		var e *tabula.Extractor
+		if (i+p)%2 == 0 {
+			e = c11Opt(tabula.Open(path), c.Opt).Pages(p + 1)
+		} else {
+			e = c11Opt(tabula.Open(path).Pages(p+1), c.Opt)
 		}
 		filt, _, err := e.Text()
 		r.Evals += 2
@@ -369,7 +368,11 @@ func c11Case(i int, raw []byte) Result {
 		}
 		for _, via := range vias {
 			po, err1 := runTerminal(tabula.Open(path).Pages(p+1), via)
-			fo, err2 := runTerminal(c11Opt(tabula.Open(path).Pages(p+1), c.Opt), via)
+			fe := c11Opt(tabula.Open(path).Pages(p+1), c.Opt)
+			if (i+p)%2 == 1 {
+				fe = c11Opt(tabula.Open(path), c.Opt).Pages(p + 1).JoinParagraphs()
+			}
+			fo, err2 := runTerminal(fe, via)
 			r.Evals += 2
 			if err1 != nil || err2 != nil {
 				return mk("error", fmt.Sprintf("%s failed: %v / %v", via, err1, err2), nil)
